@@ -564,6 +564,17 @@ CLAUSES.append(
                 "modified by the caller afterwards, repeated load_builtin / load_kbmag_file of the same file with edits in between, deepcopies; after "
                 "every step every automaton is compared with its own set model and every caller dictionary / start list with its own history"))
 
+from props import _defence as DF  # noqa: E402
+CLAUSES.append(
+    Clause("defence_oracle", "oracle", DF.gen_views, U.bounded(DF.run_defence), DF.judge_defence,
+           site="fsa.FSA (every mutator, accessor and constructor; two automata over the same names in one process)",
+           budget={"quick": 400, "thorough": 6000},
+           what="generic defences: (G1) after every step the object answers like a fresh object built from its current label view; (G2) argument "
+                "collections passed as list / tuple / generator / iterator / dict view / string and checked unmodified, everything the accessors "
+                "and enumerators return is mutated in place and the automaton re-examined, no mutable container shared between automata or with "
+                "caller arguments (identity scan); (G3) an unrelated automaton over the same vertex names and labels (and FSA(), built-ins, free "
+                "and derived automata) is built, edited and queried between the steps, in both orders"))
+
 # character-level parser clauses (text -> record), written by the main session
 from props._c09parse import CLAUSES_PARSE  # noqa: E402
 CLAUSES = CLAUSES + CLAUSES_PARSE
